@@ -7,6 +7,7 @@ import ErgoModel.Path
 import ErgoModel.Url
 import ErgoModel.Program
 import ErgoModel.Render
+import ErgoModel.Codec
 open Lean Ergo Ergo.Wire Ergo.Storage
 
 def handle (j : Json) : Json :=
@@ -161,17 +162,36 @@ def handle (j : Json) : Json :=
     Json.mkObj [("enc_html", out (Ergo.Json.encodeString true sIn)), ("enc_raw", out (Ergo.Json.encodeString false sIn)),
       ("dec", match Ergo.Json.decodeString (cpsOf "lit") with | some l => out l | none => Json.null),
       ("trim", out (Text.trimSpaceL sIn)), ("blank", Text.isBlankL sIn)]
+  | "codec" =>
+    -- the line codec: classification of raw bytes, encoding of an event, time stamp text
+    let classJson : LineClass → Json
+      | .blank => Json.str "blank" | .bad => Json.str "bad" | .ev e => eventJson e
+    match j.getObjVal? "line", j.getObjVal? "event", j.getObjVal? "time_text", j.getObjVal? "instant" with
+    | .ok (.str h), _, _, _ => Json.mkObj [("class", classJson (Ergo.Codec.classifyLine (unhex h)))]
+    | _, .ok ev, _, _ => Json.mkObj [("enc", tohex (Ergo.Codec.encodeEvent (fun _ => str j "ets") (eventOf ev)))]
+    | _, _, .ok (.str s), _ => Json.mkObj [("parsed", jot (Ergo.Time.parseS s))]
+    | _, _, _, .ok (.str n) => Json.mkObj [("formatted", Ergo.Time.formatS (n.toNat?.getD 0))]
+    | _, _, _, _ => Json.mkObj [("err", "bad_codec_request")]
   | "storage" =>
-    let classify := classifierOf (j.getObjValD "classes")
+    -- the concrete codec decides; the table of classifications the harness obtained from the real decoder must agree with it
+    let classify := Ergo.Codec.classifyLine
+    let table := classifierOf (j.getObjValD "classes")
+    let lines : List Storage.Bytes := match j.getObjVal? "classes" with
+      | .ok (.obj o) => o.toList.map fun kv => unhex kv.1
+      | _ => []
+    let mismatches := lines.filter fun l => classify l != table l
     let limit := (j.getObjValAs? Nat "limit").toOption.getD 10485760
     let file := unhex (str j "file")
-    let batch := (arr j "append").map fun a => (eventOf (a.getObjValD "event"), unhex (str a "hex"))
-    -- the encoder is the table of the bytes the real json.Marshal produced for this batch
-    let encode : Event → Storage.Bytes := fun e => ((batch.find? fun p => p.1 == e).map (·.2)).getD []
-    let after := batch.foldl (fun f p => f ++ p.2 ++ [Storage.NL]) (Storage.repairTail classify file)
+    let batch := (arr j "append").map fun a => (eventOf (a.getObjValD "event"), str a "ets")
+    let evs := batch.map (·.1)
+    -- the envelope time stamp is not part of the model's event: it travels beside it
+    let encode : Event → Storage.Bytes := fun e => Ergo.Codec.encodeEvent (fun e' => ((batch.find? fun p => p.1 == e').map (·.2)).getD "") e
+    let afterModel := if batch.isEmpty then Storage.repairTail classify file else Storage.appendFile classify encode file evs
+    -- the same with each line encoded under its own envelope time stamp (two equal events of one batch may carry different ones)
+    let after := batch.foldl (fun f p => f ++ Ergo.Codec.encodeEvent (fun _ => p.2) p.1 ++ [Storage.NL]) (Storage.repairTail classify file)
     Json.mkObj [("read", readJson (Storage.readEvents classify limit file)),
-      ("after", tohex (if batch.isEmpty then Storage.repairTail classify file else after)),
-      ("after_model", tohex (Storage.appendFile classify encode file (batch.map (·.1)))),
+      ("after", tohex after), ("after_model", tohex afterModel),
+      ("class_mismatch", Json.arr (mismatches.map fun l => Json.str (tohex l)).toArray),
       ("read_after", readJson (Storage.readEvents classify limit after))]
   | _ => Json.mkObj [("err", "bad_op")]
 
